@@ -2015,6 +2015,13 @@ impl CommandParser {
                     }
                     let seconds = Self::extract_string(&frames[i + 1])?.parse::<u64>()
                         .map_err(|_| FerrousError::Command(CommandError::InvalidIntegerValue))?;
+                    // same rules as the direct SET: one expiry option, and not zero
+                    if options.expiration.is_some() {
+                        return Err(FerrousError::Command(CommandError::SyntaxError("syntax error".to_string())));
+                    }
+                    if seconds == 0 {
+                        return Err(FerrousError::Command(CommandError::InvalidArgument("invalid expire time in 'set' command".to_string())));
+                    }
                     options.expiration = Some(Duration::from_secs(seconds));
                     i += 2;
                 }
@@ -2024,6 +2031,12 @@ impl CommandParser {
                     }
                     let millis = Self::extract_string(&frames[i + 1])?.parse::<u64>()
                         .map_err(|_| FerrousError::Command(CommandError::InvalidIntegerValue))?;
+                    if options.expiration.is_some() {
+                        return Err(FerrousError::Command(CommandError::SyntaxError("syntax error".to_string())));
+                    }
+                    if millis == 0 {
+                        return Err(FerrousError::Command(CommandError::InvalidArgument("invalid expire time in 'set' command".to_string())));
+                    }
                     options.expiration = Some(Duration::from_millis(millis));
                     i += 2;
                 }
@@ -2140,8 +2153,11 @@ impl CommandParser {
         if frames.len() != 4 {
             return Err(FerrousError::Command(CommandError::WrongNumberOfArguments("SETEX".into())));
         }
-        let seconds = Self::extract_string(&frames[2])?.parse::<u64>()
-            .map_err(|_| FerrousError::Command(CommandError::InvalidIntegerValue))?;
+        let seconds = match Self::extract_string(&frames[2])?.parse::<i64>() {
+            Ok(n) if n > 0 => n as u64,
+            Ok(_) => return Err(FerrousError::Command(CommandError::InvalidArgument("invalid expire time in 'setex' command".to_string()))),
+            Err(_) => return Err(FerrousError::Command(CommandError::InvalidIntegerValue)),
+        };
         Ok(StringCommand::SetEx {
             key: Self::extract_bytes(&frames[1])?,
             value: Self::extract_bytes(&frames[3])?,
@@ -2153,8 +2169,11 @@ impl CommandParser {
         if frames.len() != 4 {
             return Err(FerrousError::Command(CommandError::WrongNumberOfArguments("PSETEX".into())));
         }
-        let milliseconds = Self::extract_string(&frames[2])?.parse::<u64>()
-            .map_err(|_| FerrousError::Command(CommandError::InvalidIntegerValue))?;
+        let milliseconds = match Self::extract_string(&frames[2])?.parse::<i64>() {
+            Ok(n) if n > 0 => n as u64,
+            Ok(_) => return Err(FerrousError::Command(CommandError::InvalidArgument("invalid expire time in 'psetex' command".to_string()))),
+            Err(_) => return Err(FerrousError::Command(CommandError::InvalidIntegerValue)),
+        };
         Ok(StringCommand::PSetEx {
             key: Self::extract_bytes(&frames[1])?,
             value: Self::extract_bytes(&frames[3])?,
